@@ -40,7 +40,7 @@ def make_specs(ctx: Ctx, n):
         # every fifth case also records the per-period ccv arrays (hook solve_period, eager run) for step localisation
         plan = [{"op": "solve", "jit": False, "record_ccv": i % 5 == 0}, {"op": "solve", "jit": True},
                 {"op": "rel-solve", "a": 1, "b": 2, "what": "jit-equals-eager"}]
-        specs.append(mk_spec(i, m, ["solve"], plan, label=label))
+        specs.append(mk_spec(i, m, ["solve"], plan, label=label + ("; float64" if i % 5 == 4 else ""), x64=i % 5 == 4))
     return specs
 
 
